@@ -18,6 +18,7 @@ import (
 	"strconv"
 	"sync"
 	"sync/atomic"
+	"time"
 
 	ginpkg "github.com/gin-gonic/gin"
 	fiberpkg "github.com/gofiber/fiber/v2"
@@ -98,6 +99,28 @@ type Scenario struct {
 	NoAbort bool `json:"noabort"`
 	// MwCanceled: the error a failing middleware returns wraps context.Canceled
 	MwCanceled bool `json:"mwcanceled"`
+	// ReqCancel: the request's context is cancelled while the handler runs (the client went away); the handler waits
+	// until the request scope has been closed by its context watcher and returns: the close at the end of the
+	// request is then the second one
+	ReqCancel bool `json:"reqcancel"`
+}
+
+var reqCancels sync.Map // rq -> context.CancelFunc
+
+// clientGone cancels the context the request came with and waits (bounded) until its scope refuses further use
+func clientGone(rq int, s godi.Scope) {
+	if f, ok := reqCancels.Load(rq); ok {
+		f.(context.CancelFunc)()
+	}
+	if s == nil {
+		return
+	}
+	for i := 0; i < 3000; i++ {
+		if _, err := godi.Resolve[*Probe](s); errors.Is(err, godi.ErrScopeDisposed) {
+			return
+		}
+		time.Sleep(time.Millisecond)
+	}
 }
 
 // outerCtx is the context every incoming request carries (context.Background unless the scenario says the
@@ -105,7 +128,9 @@ type Scenario struct {
 var outerCtx = context.Background()
 
 func newReq(rq int) *http.Request {
-	req := httptest.NewRequest("GET", "/", nil).WithContext(outerCtx)
+	ctx, cancel := context.WithCancel(outerCtx)
+	reqCancels.Store(rq, cancel)
+	req := httptest.NewRequest("GET", "/", nil).WithContext(ctx)
 	req.Header.Set("X-Rq", strconv.Itoa(rq))
 	return req
 }
@@ -149,6 +174,9 @@ func plainHandler(sc *Scenario, rq int, ctx context.Context) error {
 	s, _ := godi.FromContext(ctx)
 	sid, pid := seen(s)
 	emit(M{"ev": "handler", "rq": rq, "scope": sid, "probe": pid})
+	if sc.ReqCancel {
+		clientGone(rq, s)
+	}
 	switch sc.Handler {
 	case "panic":
 		panic("verif: scripted handler panic")
@@ -169,6 +197,9 @@ func method(sc *Scenario, rq int, c *Ctrl, ctx context.Context) error {
 		cid = c.ID
 	}
 	emit(M{"ev": "method", "rq": rq, "scope": scopeID(s), "probe": pid, "ctrl": cid})
+	if sc.ReqCancel {
+		clientGone(rq, s)
+	}
 	switch sc.Method {
 	case "panic":
 		panic("verif: scripted method panic")
@@ -412,6 +443,16 @@ func buildFiber(sc *Scenario, p godi.Provider) *app {
 		octx := outerCtx
 		a.Use(func(c *fiberpkg.Ctx) error { c.SetUserContext(octx); return c.Next() })
 	}
+	if sc.ReqCancel {
+		// fiber requests carry no context of their own: the user context is set by a handler in front
+		a.Use(func(c *fiberpkg.Ctx) error {
+			n, _ := strconv.Atoi(c.Get("X-Rq"))
+			ctx, cancel := context.WithCancel(context.Background())
+			reqCancels.Store(n, cancel)
+			c.SetUserContext(ctx)
+			return c.Next()
+		})
+	}
 	var panics sync.Map
 	frq := func(c *fiberpkg.Ctx) int { n, _ := strconv.Atoi(c.Get("X-Rq")); return n }
 	a.Use(func(c *fiberpkg.Ctx) (err error) {
@@ -606,6 +647,7 @@ func runScenario(sc *Scenario, raw []byte, run int) {
 	}
 	close(start)
 	wg.Wait()
+	reqCancels.Range(func(k, f any) bool { f.(context.CancelFunc)(); reqCancels.Delete(k); return true })
 	emit(M{"ev": "end"})
 	if !sc.ProvClosed {
 		p.Close()
